@@ -7,22 +7,29 @@
    as found.  `body`/`pick` are arbitrary user code / output pickers. *)
 From Verif Require Import Base.Prelude Base.StrOrd Base.Graph Model.Pipe Model.CacheSem Model.CacheSemSpec
   Proofs.CacheSemBase Proofs.CacheSemFacts.
+From Verif Require Model.MapRun Model.MapRunCache Proofs.MapRunCacheFacts Model.Lazy Model.LazySeq Proofs.LazySeqFacts.
 
 (* ---------- the property ---------- *)
 (* For every replacement policy (anything `lawful`), every pipeline, every choice of cached functions (the `cached`
    flags of p), every history of calls (with / without full_output, supplying root arguments or intermediates,
    surplus or missing keywords) and update_defaults / update_bound / replace mutations: each call that succeeds
    without caching returns an equal value with caching enabled.
-   Side conditions: every pipeline of the history is well-formed (accepted by construction) and its root_args cover
-   the names its outputs read (`roots_okb`, decidable; evaluated on every generated correspondence case). *)
+   Only side condition: every pipeline of the history is well-formed (`hist_wfb`: accepted by construction-time
+   validation).  That Pipeline.root_args (the model of _compute_arg_mapping) exists, consists of non-outputs and
+   covers every name the output reads is PROVED from well-formedness (C09_roots_ok_of_wf below). *)
 Theorem C09_cache_transparent :
   forall (body : str -> alist -> result str) (pick : str -> str -> str) (C : Type) (P : policy C) (good : C -> Prop),
     lawful P good ->
     forall (p : pipeline) (h : list step) (c0 : C),
-      hist_goodb p h = true -> empty_cache P good c0 ->
+      hist_wfb p h = true -> empty_cache P good c0 ->
       Forall2 step_transparent (exec_hist body pick P false false p c0 h) (exec_hist body pick P false true p c0 h).
-Proof. exact @cache_transparent. Qed.
+Proof. exact @cache_transparent_wf. Qed.
 Print Assumptions C09_cache_transparent.
+
+(* root_args of a well-formed pipeline: defined for every output, only non-outputs, covers what the output reads *)
+Theorem C09_roots_ok_of_wf : forall p, wf_pipeline p -> roots_okb p = true.
+Proof. exact RootArgsFacts.roots_okb_of_wf. Qed.
+Print Assumptions C09_roots_ok_of_wf.
 
 (* the invariant behind it (DESIGN: cache_inv): from ANY two caches whose resident entries are raw results of their
    functions for the key's root values, not only from empty ones *)
@@ -30,9 +37,12 @@ Theorem C09_cache_inv_history :
   forall (body : str -> alist -> result str) (pick : str -> str -> str) (C : Type) (P : policy C) (good : C -> Prop),
     lawful P good ->
     forall (h : list step) (p : pipeline) (cu cc : C),
-      hist_good p h -> cache_inv body pick P good p cu -> cache_inv body pick P good p cc ->
+      (forall q, In q (hist_pipelines p h) -> wf_pipeline q) ->
+      cache_inv body pick P good p cu -> cache_inv body pick P good p cc ->
       Forall2 step_transparent (exec_hist body pick P false false p cu h) (exec_hist body pick P false true p cc h).
-Proof. exact @cache_transparent_inv. Qed.
+Proof.
+  intros body pick C P good LAW h p cu cc Hw. apply (cache_transparent_inv body pick P good LAW). now apply hist_wf_good.
+Qed.
 Print Assumptions C09_cache_inv_history.
 
 (* the two container models of CacheSem.v are lawful, hence the instances *)
@@ -46,41 +56,41 @@ Print Assumptions C09_lru_lawful.
 
 Theorem C09_cache_transparent_simple :
   forall body pick (p : pipeline) (h : list step),
-    hist_goodb p h = true ->
+    hist_wfb p h = true ->
     Forall2 step_transparent (exec_hist body pick simple_policy false false p [] h)
                              (exec_hist body pick simple_policy false true p [] h).
-Proof. intros. exact (cache_transparent body pick simple_policy _ simple_lawful p h [] H simple_empty). Qed.
+Proof. intros. exact (cache_transparent_wf body pick simple_policy _ simple_lawful p h [] H simple_empty). Qed.
 Print Assumptions C09_cache_transparent_simple.
 
 Theorem C09_cache_transparent_lru :
   forall body pick (max_size : nat) (p : pipeline) (h : list step),
-    hist_goodb p h = true ->
+    hist_wfb p h = true ->
     Forall2 step_transparent (exec_hist body pick lru_policy false false p (lru_empty max_size) h)
                              (exec_hist body pick lru_policy false true p (lru_empty max_size) h).
-Proof. intros. exact (cache_transparent body pick lru_policy _ lru_lawful p h _ H (lru_empty_ok max_size)). Qed.
+Proof. intros. exact (cache_transparent_wf body pick lru_policy _ lru_lawful p h _ H (lru_empty_ok max_size)). Qed.
 Print Assumptions C09_cache_transparent_lru.
 
 (* one call, from arbitrary caches satisfying the invariant: the cached twin also succeeds, with an equal outcome *)
 Theorem C09_call_transparent :
   forall body pick (C : Type) (P : policy C) (good : C -> Prop), lawful P good ->
-  forall p, wf_pipeline p -> roots_okb p = true ->
+  forall p, wf_pipeline p ->
   forall kw full cu cc o out_u lgu cu',
     cache_inv body pick P good p cu -> cache_inv body pick P good p cc ->
     crun body pick P false false p cu o kw full = (Ok out_u, lgu, cu') ->
     exists out_c lgc cc', crun body pick P false true p cc o kw full = (Ok out_c, lgc, cc') /\ outcome_eq out_u out_c.
 Proof.
-  intros body pick C P good LAW p WF ROOTS. destruct (wf_topo p WF) as [ls LS].
-  exact (call_transparent body pick P good LAW p WF ROOTS ls LS).
+  intros body pick C P good LAW p WF. destruct (wf_topo p WF) as [ls LS].
+  exact (call_transparent body pick P good LAW p WF (RootArgsFacts.roots_okb_of_wf p WF) ls LS).
 Qed.
 Print Assumptions C09_call_transparent.
 
 (* the uncached twin of this model is exactly Pipe.run, the model of C02 *)
 Theorem C09_uncached_twin_is_pipe_run :
-  forall body pick (C : Type) (P : policy C) (p : pipeline), roots_okb p = true ->
+  forall body pick (C : Type) (P : policy C) (p : pipeline), wf_pipeline p ->
   forall kw full (c : C) o,
     crun body pick P false false p c o kw full
     = (fst (Pipe.run body pick p o kw full), snd (Pipe.run body pick p o kw full), c).
-Proof. exact @uncached_twin_is_pipe_run. Qed.
+Proof. intros body pick C P p WF. exact (uncached_twin_is_pipe_run body pick P p (RootArgsFacts.roots_okb_of_wf p WF)). Qed.
 Print Assumptions C09_uncached_twin_is_pipe_run.
 
 (* ---------- no re-execution ---------- *)
@@ -114,7 +124,32 @@ Theorem C09_get_or_set_transparent :
 Proof. exact @get_or_set_ok. Qed.
 Print Assumptions C09_get_or_set_transparent.
 
-(* ... hence a sequential map run (for the cache: a sequence of such invocations) computes the uncached results *)
+(* Shared caches (parallel map runs): an invocation performs two ATOMIC cache operations, one read and - on a miss -
+   one write (LRUCache/HybridCache.get/put hold the cache lock), and other clients act in between.  From ANY cache
+   satisfying the invariant, a value that is read is the user function's value, and writing the user function's value
+   re-establishes the invariant: so under every interleaving of such atomic steps each client gets what its user
+   function returns.  (Proved at this granularity; real thread schedules are sampled by the harness.) *)
+Theorem C09_map_shared_read :
+  forall body pick (C : Type) (P : policy C) (good : C -> Prop), lawful P good ->
+  forall p, wf_pipeline p ->
+  forall f kwargs c v c1, In f p -> NoDup (akeys kwargs) -> cache_inv body pick P good p c ->
+    gos_read P f kwargs c = (Some v, c1) ->
+    body (fname f) (call_args f kwargs) = Ok v /\ cache_inv body pick P good p c1.
+Proof.
+  intros body pick C P good LAW p WF f kws c v c1 Hf Hnd Hc H. split.
+  - exact (gos_read_ok body pick P good LAW p WF f kws c v c1 Hf Hnd Hc H).
+  - pose proof (gos_read_inv body pick P good LAW p f kws c Hc) as H1. now rewrite H in H1.
+Qed.
+Print Assumptions C09_map_shared_read.
+
+Theorem C09_map_shared_write :
+  forall body pick (C : Type) (P : policy C) (good : C -> Prop), lawful P good ->
+  forall p f kwargs c v, In f p -> NoDup (akeys kwargs) -> cache_inv body pick P good p c ->
+    body (fname f) (call_args f kwargs) = Ok v -> cache_inv body pick P good p (gos_write P f kwargs c v).
+Proof. exact @gos_write_inv. Qed.
+Print Assumptions C09_map_shared_write.
+
+(* ... hence any sequence of such invocations computes the uncached results *)
 Theorem C09_map_cache_transparent :
   forall body pick (C : Type) (P : policy C) (good : C -> Prop), lawful P good ->
   forall p, wf_pipeline p ->
@@ -125,6 +160,57 @@ Theorem C09_map_cache_transparent :
     /\ cache_inv body pick P good p (snd (map_calls body P calls c)).
 Proof. exact @map_calls_transparent. Qed.
 Print Assumptions C09_map_cache_transparent.
+
+(* ... and for WHOLE map runs: Model/MapRunCache.v is the sequential Pipeline.map of Model/MapRun.v (the model of
+   C01) with the cache threaded through every invocation (_run_iteration / _execute_single -> _get_or_set_cache).
+   For every lawful cache, from every cache whose readable entries are results of the pipeline's functions (in
+   particular an empty one, or the cache left by earlier map runs on the same functions): the run with cache returns
+   EXACTLY what the run without cache returns (arrays as returned and as stored, or the same error), leaves such a
+   cache again, and executes the user functions at most as often as the uncached run calls them. *)
+Theorem C09_map_run_cache_transparent :
+  forall (body : MapRun.mfunc -> MapRun.env -> result (list MapRun.val)) (C : Type)
+         (P : MapRunCache.kvcache MapRunCache.mkey MapRunCache.mval C) (good : C -> Prop),
+    MapRunCache.kv_lawful P good ->
+    forall p : list MapRun.mfunc,
+      (forall f g, In f p -> In g p -> MapRun.fouts f = MapRun.fouts g -> f = g) ->
+      forall inputs user c r c' x,
+        MapRunCacheFacts.kinv body P good p c ->
+        MapRunCache.map_run_c body P p inputs user c = (r, c', x) ->
+        r = MapRun.map_run body p inputs user
+        /\ MapRunCacheFacts.kinv body P good p c'
+        /\ (forall st', r = Ok st' -> x <= MapRun.r_calls st').
+Proof.
+  intros body C P good LAW p DIST inputs user c r c' x Hc H.
+  exact (MapRunCacheFacts.map_run_c_ok body P good LAW p DIST p inputs user c r c' x (fun f Hf => Hf) Hc H).
+Qed.
+Print Assumptions C09_map_run_cache_transparent.
+
+Theorem C09_map_dict_lawful : MapRunCache.kv_lawful MapRunCache.map_simple (fun _ => True).
+Proof. exact MapRunCacheFacts.map_simple_lawful. Qed.
+Print Assumptions C09_map_dict_lawful.
+
+(* the empty dict satisfies the hypothesis *)
+Example C09_map_empty_inv body p : MapRunCacheFacts.kinv body MapRunCache.map_simple (fun _ => True) p [].
+Proof. split; [exact I|]. intros k v H. discriminate. Qed.
+
+(* ---------- lazy pipelines (Model/LazySeq.v, C18) ---------- *)
+(* the first request to a fresh lazy pipeline object WITH its caches (the task-graph SimpleCache / the pipeline's LRU
+   cache) is exactly the lazy run without caches (Lazy.lazy_run: result, heap of _LazyFunction nodes, task graph) -
+   for every well-formed pipeline: the side condition "root_args never fails" of C18_first_request_is_lazy_run is
+   discharged by C09_roots_ok_of_wf.  (Later requests of a lazy sequence: C18; not covered here.) *)
+Theorem C09_lazy_first_request_transparent : forall p dagon o kw full,
+  wf_pipeline p ->
+  exists c, LazySeq.crequest p dagon LazySeq.pinit o kw full =
+            (fst (Lazy.lazy_run p o kw full dagon),
+             {| LazySeq.pheap := Lazy.lheap (snd (Lazy.lazy_run p o kw full dagon));
+                LazySeq.pdag := Lazy.ldag (snd (Lazy.lazy_run p o kw full dagon));
+                LazySeq.pcache := c; LazySeq.plog := [] |}).
+Proof.
+  intros p dagon o kw full WF. apply LazySeqFacts.first_request_is_lazy_run; [exact WF|].
+  pose proof (RootArgsFacts.roots_okb_of_wf p WF) as H. unfold roots_okb in H. rewrite forallb_forall in H.
+  apply forallb_forall. intros o' Ho'. specialize (H o' Ho'). destruct (root_args p o'); [reflexivity | discriminate].
+Qed.
+Print Assumptions C09_lazy_first_request_transparent.
 
 (* ---------- the code as found (legacy = true) does NOT have the property: three defects ---------- *)
 Definition fb : pfunc := mkf (s "fb") [s "b"] [(s "a", s "a")] [] [] true.
@@ -146,11 +232,11 @@ Definition p_key : pipeline :=
 Definition h_key : list step := [call_c [(s "x", s "1")]; call_c [(s "x", s "2")]].
 
 Definition legacy_refuted (p : pipeline) (h : list step) : Prop :=
-  hist_goodb p h = true
+  hist_wfb p h = true
   /\ ~ Forall2 step_transparent (exec_hist Sym.body Sym.pick simple_policy true false p [] h)
                                 (exec_hist Sym.body Sym.pick simple_policy true true p [] h).
 
-Lemma refute p h : hist_goodb p h = true ->
+Lemma refute p h : hist_wfb p h = true ->
   all_transparentb (exec_hist Sym.body Sym.pick simple_policy true false p [] h)
                    (exec_hist Sym.body Sym.pick simple_policy true true p [] h) = false -> legacy_refuted p h.
 Proof. intros Hg Hb. split; [exact Hg|]. intros H. apply all_transparentb_complete in H. congruence. Qed.
@@ -171,12 +257,40 @@ Theorem C09_cache_transparent_refuted_bound_in_key : exists p h, legacy_refuted 
 Proof. exists p_key, h_key. apply refute; vm_compute; reflexivity. Qed.
 Print Assumptions C09_cache_transparent_refuted_bound_in_key.
 
+(* (iv) map path, shared cache, the code as found (`if key in cache: return cache.get(key)`): another client's
+   perfectly valid write between the membership test and the read evicts the entry (LRU, max_size 1) and the
+   invocation returns None instead of the user function's value *)
+Theorem C09_map_shared_legacy_refuted :
+  exists p f kwargs c (interfere : lru -> lru),
+    wf_pipeline p /\ In f p /\ NoDup (akeys kwargs)
+    /\ cache_inv Sym.body Sym.pick lru_policy (fun c => nodupk (ldict c)) p c
+    /\ (forall c', cache_inv Sym.body Sym.pick lru_policy (fun c => nodupk (ldict c)) p c' ->
+                   cache_inv Sym.body Sym.pick lru_policy (fun c => nodupk (ldict c)) p (interfere c'))
+    /\ fst (fst (get_or_set_legacy Sym.body lru_policy interfere f kwargs c)) <> Sym.body (fname f) (call_args f kwargs).
+Proof.
+  set (kw1 := [(s "a", s "1")]). set (kw2 := [(s "a", s "1"); (s "b", s "2")]).
+  exists p_cut, fb, kw1, (snd (fst (get_or_set Sym.body lru_policy fb kw1 (lru_empty 1)))),
+         (fun c' => gos_write lru_policy fc kw2 c' (s "fc(a=1,b=2)")).
+  assert (WF : wf_pipeline p_cut) by (vm_compute; reflexivity).
+  assert (Hfb : In fb p_cut) by (now left). assert (Hfc : In fc p_cut) by (right; now left).
+  assert (N1 : NoDup (akeys kw1)) by (constructor; [intros []|constructor]).
+  assert (N2 : NoDup (akeys kw2)).
+  { constructor; [intros [H|[]]; vm_compute in H; discriminate|]. constructor; [intros []|constructor]. }
+  split; [exact WF|]. split; [exact Hfb|]. split; [exact N1|]. split; [|split].
+  - destruct (get_or_set Sym.body lru_policy fb kw1 (lru_empty 1)) as [[r c1] ex] eqn:E.
+    apply (get_or_set_ok Sym.body Sym.pick lru_policy _ lru_lawful p_cut WF fb kw1 (lru_empty 1) r c1 ex Hfb N1); [|exact E].
+    apply empty_cache_inv. apply lru_empty_ok.
+  - intros c' Hc'. apply (gos_write_inv Sym.body Sym.pick lru_policy _ lru_lawful p_cut fc kw2 c' _ Hfc N2 Hc'). reflexivity.
+  - vm_compute. discriminate.
+Qed.
+Print Assumptions C09_map_shared_legacy_refuted.
+
 (* ---------- non-vacuity ---------- *)
 (* the witnesses satisfy the side condition of C09_cache_transparent, and on the repaired model they are transparent
    while the cache is really used: the repeated call of h_hit executes nothing *)
 Example C09_side_conditions_hold :
-  hist_goodb p_cut h_cut = true /\ hist_goodb p_cut h_replace = true /\ hist_goodb p_cut h_bound = true
-  /\ hist_goodb p_key h_key = true.
+  hist_wfb p_cut h_cut = true /\ hist_wfb p_cut h_replace = true /\ hist_wfb p_cut h_bound = true
+  /\ hist_wfb p_key h_key = true.
 Proof. vm_compute. auto. Qed.
 
 Definition h_hit : list step := [call_c [(s "a", s "1")]; call_c [(s "a", s "1")]].
